@@ -23,6 +23,7 @@ import (
 
 	"github.com/ARM-software/golang-utils/utils/logs"
 	"github.com/ARM-software/golang-utils/utils/subprocess"
+	"github.com/ARM-software/golang-utils/utils/subprocess/supervisor"
 
 	"verif/harness/hx"
 )
@@ -119,7 +120,13 @@ func procTreeChild(args []string) {
 	}
 	execDone := make(chan struct{})
 	t0 := time.Now()
-	if start == "Execute" {
+	if start == "supervisor" {
+		// the supervisor builds and Executes the command itself (and would start it again if it exited)
+		sup := supervisor.NewSupervisor(func(c context.Context) (*subprocess.Subprocess, error) {
+			return subprocess.New(c, loggers, "start", "ok", "failed", "sh", "-c", shape.script)
+		})
+		go func() { _ = sup.Run(ctx); close(execDone) }()
+	} else if start == "Execute" {
 		go func() { _ = p.Execute(); close(execDone) }()
 	} else {
 		if err := p.Start(); err != nil {
@@ -154,8 +161,10 @@ func procTreeChild(args []string) {
 			p.Cancel()
 		case "Stop":
 			_ = p.Stop()
+		case "Restart":
+			_ = p.Restart()
 		}
-		if start == "Execute" {
+		if start == "Execute" || start == "supervisor" {
 			<-execDone
 		}
 		close(returned)
@@ -177,11 +186,30 @@ func procTreeChild(args []string) {
 			res.Survivors = append(res.Survivors, pid)
 		}
 	}
-	if res.Timely {
+	if res.Timely && start != "supervisor" && stop != "Restart" {
 		res.IsOn = p.IsOn()
 		if res.IsOn {
 			time.Sleep(150 * time.Millisecond)
 			res.IsOn = p.IsOn()
+		}
+	}
+	if stop == "Restart" {
+		// the tree started by the Restart: stopped here, and whatever is left of it is killed below
+		old := map[int]bool{}
+		for _, pid := range res.Pids {
+			old[pid] = true
+		}
+		time.Sleep(100 * time.Millisecond)
+		stopped := make(chan struct{})
+		go func() { _ = p.Stop(); close(stopped) }()
+		select {
+		case <-stopped:
+		case <-time.After(procBound):
+		}
+		for _, m := range pidRe.FindAllStringSubmatch(loggers.GetLogContent(), -1) {
+			if n, _ := strconv.Atoi(m[1]); !old[n] {
+				_ = syscall.Kill(n, syscall.SIGKILL)
+			}
 		}
 	}
 	emit()
@@ -193,7 +221,7 @@ func procTreeChild(args []string) {
 
 func procTreeMain(args []string) {
 	o := hx.ParseOpts(args)
-	rep := hx.NewReport("process trees (single, chain of three, fan of three, background child holding the output pipes, descendant / root ignoring SIGTERM, parent exiting before its child) x start {Execute, Start} x stop {context cancel, context deadline, Cancel(), Stop()} x stop instant {right after the spawn, 30 ms, 150 ms}, plus the same object reused after a first start / stop cycle; " +
+	rep := hx.NewReport("process trees (single, chain of three, fan of three, background child holding the output pipes, descendant / root ignoring SIGTERM, parent exiting before its child) x start {Execute, Start, supervisor} x stop {context cancel, context deadline, Cancel(), Stop(), Restart()} x stop instant {right after the spawn, 30 ms, 150 ms}, plus the same object reused after a first start / stop cycle; " +
 		"each case in its own process; bound for Execute() / Stop() to return after the stop request: 3 s. non-trivial = the tree has at least one descendant; distinct = (shape, start, stop, instant).")
 	instants := []int{0, 30, 150}
 	if !o.Thorough() {
@@ -208,6 +236,11 @@ func procTreeMain(args []string) {
 	}
 	var jobs []job
 	for si := range treeShapes {
+		// the supervisor (it Executes the command itself) stopped through its context; a started process restarted
+		for _, stop := range []string{"ctx-cancel", "ctx-deadline"} {
+			jobs = append(jobs, job{si, "supervisor", stop, 30, false})
+		}
+		jobs = append(jobs, job{si, "Start", "Restart", 30, false})
 		for _, start := range []string{"Execute", "Start"} {
 			for _, stop := range []string{"ctx-cancel", "ctx-deadline", "Cancel", "Stop"} {
 				for _, at := range instants {
@@ -274,7 +307,7 @@ func procTreeMain(args []string) {
 			case j.start == "Execute" && j.stop == "Stop":
 				// Stop() needs the object's mutex, which Execute holds for the whole run (whatever the tree)
 				cls = "Execute+Stop"
-			case j.start == "Execute" && shape.rootExits:
+			case (j.start == "Execute" || j.start == "supervisor") && shape.rootExits:
 				// the root has exited by itself before the stop request: the runtime no longer reacts to the context
 				cls = "Execute+context-end-after-the-root-exited"
 			}
